@@ -1,11 +1,833 @@
+// Command check is the orchestrator behind every command registered in
+// MANIFEST.json:
+//
+//	check <property> [--tier quick|thorough] [--runs N] [--budget seconds] [--workers W]
+//	check <property> --replay <file>
+//	check build            (setup: build and cache the workers for the current tree)
+//	check selftest-determinism [props…]
+//
+// It snapshots /repo's working tree into a scratch copy (instrumented: map
+// iteration order and locks behind simulator-owned seams), builds the worker
+// against it, fans seeded runs out over worker processes, minimises and
+// re-plays violations, and writes the evidence file.
+//
+// Exit codes: 0 property held on everything explored (KNOWN-FINDING lines may
+// be printed); 1 at least one unlisted violation (VIOLATION lines); 2
+// infrastructure trouble (never prints VIOLATION).
 package main
 
 import (
+	"bufio"
+	"bytes"
+	"crypto/sha256"
+	"encoding/hex"
+	"encoding/json"
 	"fmt"
+	"io"
+	"io/fs"
+	"os"
+	"os/exec"
+	"os/signal"
+	"path/filepath"
+	"runtime"
+	"sort"
+	"strconv"
+	"strings"
+	"sync"
+	"syscall"
+	"time"
 
-	_ "github.com/anishathalye/porcupine"
-	"github.com/zerx-lab/wordZero/pkg/document"
-	_ "golang.org/x/tools/go/packages"
+	"verif/sim"
 )
 
-func main() { d := document.New(); d.AddParagraph("x"); b, err := d.ToBytes(); fmt.Println(len(b), err) }
+const (
+	verifDir = "/verif"
+	repoDir  = "/repo"
+)
+
+var goEnv = []string{"GOFLAGS=-mod=mod", "GOPROXY=off", "GOSUMDB=off", "GOTOOLCHAIN=local", "CGO_ENABLED=1"}
+
+func infra(f string, a ...any) {
+	fmt.Fprintf(os.Stderr, "check: INFRASTRUCTURE: "+f+"\n", a...)
+	cleanup()
+	os.Exit(2)
+}
+
+var (
+	cleanMu   sync.Mutex
+	cleanDirs []string
+)
+
+func addClean(d string) {
+	cleanMu.Lock()
+	cleanDirs = append(cleanDirs, d)
+	cleanMu.Unlock()
+}
+
+func cleanup() {
+	cleanMu.Lock()
+	defer cleanMu.Unlock()
+	for _, d := range cleanDirs {
+		os.RemoveAll(d)
+	}
+	cleanDirs = nil
+}
+
+func scratchRoot() string {
+	for _, d := range []string{os.Getenv("VERIF_SCRATCH"), "/var/tmp", os.TempDir()} {
+		if d == "" {
+			continue
+		}
+		if st, err := os.Stat(d); err == nil && st.IsDir() {
+			return d
+		}
+	}
+	return os.TempDir()
+}
+
+func mkScratch(prefix string) string {
+	d, err := os.MkdirTemp(scratchRoot(), prefix)
+	if err != nil {
+		infra("mktemp: %v", err)
+	}
+	addClean(d)
+	return d
+}
+
+// ---- tree hash and worker build --------------------------------------------------
+
+func hashTree() string {
+	h := sha256.New()
+	add := func(root string, keep func(string) bool) {
+		var files []string
+		filepath.WalkDir(root, func(p string, d fs.DirEntry, err error) error {
+			if err != nil {
+				return nil
+			}
+			if d.IsDir() {
+				n := d.Name()
+				if n == ".git" || n == ".cache" || n == "bin" || n == "evidence" || n == "replays" || n == "seeded" {
+					return filepath.SkipDir
+				}
+				return nil
+			}
+			if keep(p) {
+				files = append(files, p)
+			}
+			return nil
+		})
+		sort.Strings(files)
+		for _, f := range files {
+			b, err := os.ReadFile(f)
+			if err != nil {
+				continue
+			}
+			fmt.Fprintf(h, "%s\x00%d\x00", f, len(b))
+			h.Write(b)
+		}
+	}
+	isGo := func(p string) bool { return strings.HasSuffix(p, ".go") && !strings.HasSuffix(p, "_test.go") }
+	add(filepath.Join(repoDir, "pkg"), isGo)
+	add(verifDir, func(p string) bool { return isGo(p) || strings.HasSuffix(p, "go.mod") })
+	for _, f := range []string{"go.mod", "go.sum"} {
+		b, _ := os.ReadFile(filepath.Join(repoDir, f))
+		h.Write(b)
+	}
+	return hex.EncodeToString(h.Sum(nil))[:20]
+}
+
+func run(dir string, env []string, name string, args ...string) (string, error) {
+	cmd := exec.Command(name, args...)
+	cmd.Dir = dir
+	cmd.Env = append(os.Environ(), env...)
+	var buf bytes.Buffer
+	cmd.Stdout = &buf
+	cmd.Stderr = &buf
+	err := cmd.Run()
+	return buf.String(), err
+}
+
+func ensureTool(name string) string {
+	bin := filepath.Join(verifDir, "bin", name)
+	src := filepath.Join(verifDir, "cmd", name)
+	need := false
+	st, err := os.Stat(bin)
+	if err != nil {
+		need = true
+	} else {
+		filepath.WalkDir(src, func(p string, d fs.DirEntry, err error) error {
+			if err == nil && !d.IsDir() {
+				if fi, e := d.Info(); e == nil && fi.ModTime().After(st.ModTime()) {
+					need = true
+				}
+			}
+			return nil
+		})
+	}
+	if need {
+		if out, err := run(verifDir, goEnv, "go", "build", "-o", bin, "./cmd/"+name); err != nil {
+			infra("building %s: %v\n%s", name, err, out)
+		}
+	}
+	return bin
+}
+
+type buildInfo struct {
+	Worker  string          `json:"worker"`
+	Flavor  string          `json:"flavor"`
+	MapSeam string          `json:"map_seam"`
+	Report  json.RawMessage `json:"instrument_report,omitempty"`
+	Note    string          `json:"note,omitempty"`
+}
+
+// ensureWorker builds (or finds in the content-addressed cache) the worker of
+// a flavour: "instr" or "race" (instr + race detector). If the instrumented
+// copy does not compile while the plain copy does, it falls back to the plain
+// copy and says so (map_seam=off).
+func ensureWorker(flavor string) *buildInfo {
+	key := hashTree()
+	cdir := filepath.Join(verifDir, ".cache", key)
+	os.MkdirAll(cdir, 0o755)
+	lock, err := os.OpenFile(filepath.Join(verifDir, ".cache", "build.lock"), os.O_CREATE|os.O_RDWR, 0o644)
+	if err == nil {
+		syscall.Flock(int(lock.Fd()), syscall.LOCK_EX)
+		defer func() { syscall.Flock(int(lock.Fd()), syscall.LOCK_UN); lock.Close() }()
+	}
+	infoPath := filepath.Join(cdir, "worker-"+flavor+".json")
+	if b, err := os.ReadFile(infoPath); err == nil {
+		var bi buildInfo
+		if json.Unmarshal(b, &bi) == nil {
+			if _, err := os.Stat(bi.Worker); err == nil {
+				return &bi
+			}
+		}
+	}
+	evictOld(filepath.Join(verifDir, ".cache"), key)
+	instrument := ensureTool("instrument")
+	try := func(mode string) (*buildInfo, string) {
+		scratch := mkScratch("verif-build-")
+		defer os.RemoveAll(scratch)
+		src := filepath.Join(scratch, "src")
+		rep, err := run(verifDir, goEnv, instrument, "-src", repoDir, "-dst", src, "-rt", filepath.Join(verifDir, "rt"), "-mode", mode)
+		if err != nil {
+			return nil, "instrument(" + mode + "): " + rep
+		}
+		gomod, _ := os.ReadFile(filepath.Join(verifDir, "go.mod"))
+		gm := strings.Replace(string(gomod), "=> /repo", "=> "+src, 1)
+		os.WriteFile(filepath.Join(scratch, "go.mod"), []byte(gm), 0o644)
+		gosum, _ := os.ReadFile(filepath.Join(verifDir, "go.sum"))
+		os.WriteFile(filepath.Join(scratch, "go.sum"), gosum, 0o644)
+		worker := filepath.Join(cdir, "worker-"+flavor)
+		instr := "0"
+		if mode == "instr" {
+			instr = "1"
+		}
+		args := []string{"build", "-modfile=" + filepath.Join(scratch, "go.mod"), "-tags", "verif", "-trimpath",
+			"-ldflags", "-X main.buildInstr=" + instr + " -X main.buildRace=" + map[bool]string{true: "1", false: "0"}[flavor == "race"]}
+		if flavor == "race" {
+			args = append(args, "-race")
+		}
+		args = append(args, "-o", worker, "./cmd/simworker")
+		out, err := run(verifDir, goEnv, "go", args...)
+		if err != nil {
+			return nil, "go build(" + mode + "): " + out
+		}
+		bi := &buildInfo{Worker: worker, Flavor: flavor, MapSeam: map[string]string{"instr": "on", "plain": "off"}[mode]}
+		if json.Valid([]byte(rep)) {
+			bi.Report = json.RawMessage(rep)
+		}
+		return bi, ""
+	}
+	bi, why := try("instr")
+	if bi == nil {
+		var why2 string
+		bi, why2 = try("plain")
+		if bi == nil {
+			infra("the working tree of %s does not build:\n%s\n%s", repoDir, why, why2)
+		}
+		bi.Note = "instrumented copy failed to build, fell back to plain copy: " + firstLines(why, 6)
+		fmt.Fprintf(os.Stderr, "check: warning: %s\n", bi.Note)
+	}
+	b, _ := json.MarshalIndent(bi, "", " ")
+	os.WriteFile(infoPath, b, 0o644)
+	return bi
+}
+
+func firstLines(s string, n int) string {
+	ls := strings.Split(s, "\n")
+	if len(ls) > n {
+		ls = ls[:n]
+	}
+	return strings.Join(ls, " | ")
+}
+
+func evictOld(cache, keep string) {
+	ents, err := os.ReadDir(cache)
+	if err != nil {
+		return
+	}
+	type e struct {
+		name string
+		t    time.Time
+	}
+	var es []e
+	for _, d := range ents {
+		if !d.IsDir() || d.Name() == keep {
+			continue
+		}
+		if fi, err := d.Info(); err == nil {
+			es = append(es, e{d.Name(), fi.ModTime()})
+		}
+	}
+	sort.Slice(es, func(i, j int) bool { return es[i].t.After(es[j].t) })
+	for i, x := range es {
+		if i >= 2 {
+			os.RemoveAll(filepath.Join(cache, x.name))
+		}
+	}
+}
+
+// ---- known findings ---------------------------------------------------------------
+
+type finding struct {
+	Status, Prop, ID, Clause, Sig, What string
+}
+
+func loadFindings() []finding {
+	b, err := os.ReadFile(filepath.Join(verifDir, "KNOWN_FINDINGS.txt"))
+	if err != nil {
+		return nil
+	}
+	var out []finding
+	for _, ln := range strings.Split(string(b), "\n") {
+		ln = strings.TrimSpace(ln)
+		if ln == "" || strings.HasPrefix(ln, "#") {
+			continue
+		}
+		var f finding
+		switch {
+		case strings.HasPrefix(ln, "known:"):
+			f.Status = "known"
+		case strings.HasPrefix(ln, "fixed:"):
+			f.Status = "fixed"
+		default:
+			continue
+		}
+		head, what, _ := strings.Cut(ln, " -- ")
+		f.What = what
+		for _, tok := range strings.Fields(head) {
+			k, v, ok := strings.Cut(tok, "=")
+			if !ok {
+				continue
+			}
+			switch k {
+			case "property":
+				f.Prop = v
+			case "id":
+				f.ID = v
+			case "clause":
+				f.Clause = v
+			case "signature":
+				f.Sig = v
+			}
+		}
+		out = append(out, f)
+	}
+	return out
+}
+
+func matchKnown(fs []finding, v sim.Violation) *finding {
+	for i := range fs {
+		f := &fs[i]
+		if f.Status == "known" && f.Prop == v.Prop && f.Clause == v.Clause && f.Sig == v.Sig {
+			return f
+		}
+	}
+	return nil
+}
+
+// ---- worker protocol ----------------------------------------------------------------
+
+type wline struct {
+	T     string          `json:"t"`
+	Run   uint64          `json:"run"`
+	FP    string          `json:"fp"`
+	NT    bool            `json:"nt"`
+	Case  json.RawMessage `json:"case"`
+	Viol  []sim.Violation `json:"viol"`
+	Stats *sim.Stats      `json:"stats"`
+	Runs  int             `json:"runs"`
+	Msg   string          `json:"msg"`
+	Note  string          `json:"note"`
+	Trace []string        `json:"trace"`
+}
+
+type found struct {
+	Run  uint64
+	Case json.RawMessage
+	V    sim.Violation
+}
+
+type info struct {
+	Flavor      string            `json:"flavor"`
+	RunsQuick   int               `json:"runs_quick"`
+	RunsThor    int               `json:"runs_thorough"`
+	Rule        string            `json:"rule"`
+	Level       string            `json:"level"`
+	Assumptions []string          `json:"assumptions"`
+	RealVsStub  map[string]string `json:"real_vs_stub"`
+}
+
+func workerEnv(tmp string, race bool) []string {
+	env := append([]string{}, goEnv...)
+	if race {
+		env = append(env, "GORACE=log_path="+filepath.Join(tmp, "race")+" halt_on_error=0 history_size=3")
+	}
+	return env
+}
+
+func main() {
+	if len(os.Args) < 2 {
+		fmt.Fprintln(os.Stderr, "usage: check <property>|build|selftest-determinism [flags]")
+		os.Exit(2)
+	}
+	sigc := make(chan os.Signal, 1)
+	signal.Notify(sigc, os.Interrupt, syscall.SIGTERM)
+	go func() { <-sigc; cleanup(); os.Exit(2) }()
+	defer cleanup()
+
+	switch os.Args[1] {
+	case "build":
+		for _, f := range []string{"instr", "race"} {
+			bi := ensureWorker(f)
+			fmt.Printf("worker %s: %s (map_seam=%s)\n", f, bi.Worker, bi.MapSeam)
+		}
+		return
+	case "selftest-determinism":
+		os.Exit(selftestDeterminism(os.Args[2:]))
+	}
+	prop := os.Args[1]
+	tier := os.Getenv("VERIF_TIER")
+	if tier == "" {
+		tier = "quick"
+	}
+	seed := uint64(1)
+	if s := os.Getenv("VERIF_SEED"); s != "" {
+		if v, err := strconv.ParseUint(s, 10, 64); err == nil {
+			seed = v
+		} else if v, err := strconv.ParseInt(s, 10, 64); err == nil {
+			seed = uint64(v)
+		}
+	}
+	runs, budget, workers := 0, 0, 0
+	replay := ""
+	wild := false
+	args := os.Args[2:]
+	for i := 0; i < len(args); i++ {
+		next := func() string {
+			i++
+			if i >= len(args) {
+				infra("flag %s needs a value", args[i-1])
+			}
+			return args[i]
+		}
+		switch args[i] {
+		case "--tier":
+			tier = next()
+		case "--runs":
+			runs, _ = strconv.Atoi(next())
+		case "--budget":
+			budget, _ = strconv.Atoi(next())
+		case "--workers":
+			workers, _ = strconv.Atoi(next())
+		case "--replay":
+			replay = next()
+		case "--seed":
+			seed, _ = strconv.ParseUint(next(), 10, 64)
+		case "--wild":
+			wild = true
+		default:
+			infra("unknown flag %s", args[i])
+		}
+	}
+	_ = wild
+	if tier != "quick" && tier != "thorough" {
+		infra("tier must be quick or thorough")
+	}
+	os.Exit(checkProperty(prop, tier, seed, runs, budget, workers, replay))
+}
+
+func getInfo(worker, prop string) *info {
+	out, err := exec.Command(worker, "info", "--prop", prop).Output()
+	if err != nil {
+		infra("worker info %s: %v", prop, err)
+	}
+	var in info
+	if err := json.Unmarshal(out, &in); err != nil {
+		infra("worker info: %v: %s", err, out)
+	}
+	return &in
+}
+
+func checkProperty(prop, tier string, seed uint64, runs, budget, workers int, replay string) int {
+	start := time.Now()
+	// every property's default flavour is known only to the worker; the instr
+	// worker answers "info" for all of them
+	base := ensureWorker("instr")
+	in := getInfo(base.Worker, prop)
+	bi := base
+	if in.Flavor == "race" {
+		bi = ensureWorker("race")
+	}
+	tmp := mkScratch("verif-run-")
+
+	if replay != "" {
+		cmd := exec.Command(bi.Worker, "replay", "--file", replay, "--tmp", filepath.Join(tmp, "w"))
+		cmd.Env = append(os.Environ(), workerEnv(tmp, in.Flavor == "race")...)
+		out, err := cmd.CombinedOutput()
+		os.Stdout.Write(out)
+		if ee, ok := err.(*exec.ExitError); ok && ee.ExitCode() == 1 {
+			fmt.Printf("VIOLATION property=%s replay=%s\n", prop, replay)
+			return 1
+		} else if err != nil {
+			infra("replay: %v", err)
+		}
+		fmt.Println("replay: the expected violation did not occur")
+		return 0
+	}
+
+	if runs == 0 {
+		runs = in.RunsQuick
+		if tier == "thorough" {
+			runs = in.RunsThor
+		}
+	}
+	if budget == 0 {
+		budget = 40
+		if tier == "thorough" {
+			budget = 900
+		}
+	}
+	if workers == 0 {
+		workers = runtime.NumCPU()
+		if workers > 16 {
+			workers = 16
+		}
+	}
+	if workers > runs {
+		workers = runs
+	}
+	findings := loadFindings()
+	knownPrinted := map[string]bool{}
+	var knownList []string
+	exit := 0
+
+	// ---- lane B: directed witnesses of listed findings (and regression cases of fixed ones)
+	{
+		cmd := exec.Command(bi.Worker, "witness", "--prop", prop, "--tmp", filepath.Join(tmp, "wb"))
+		cmd.Env = append(os.Environ(), workerEnv(tmp, in.Flavor == "race")...)
+		var stderr bytes.Buffer
+		cmd.Stderr = &stderr
+		out, err := cmd.Output()
+		if err != nil {
+			infra("lane B worker failed: %v\n%s", err, stderr.String())
+		}
+		for _, ln := range bytes.Split(out, []byte("\n")) {
+			var l wline
+			if len(ln) == 0 || json.Unmarshal(ln, &l) != nil || l.T != "witness" {
+				continue
+			}
+			for _, v := range l.Viol {
+				if f := matchKnown(findings, v); f != nil {
+					if !knownPrinted[f.ID] {
+						knownPrinted[f.ID] = true
+						knownList = append(knownList, f.ID)
+						fmt.Printf("KNOWN-FINDING: property=%s %s [%s]\n", prop, f.What, f.ID)
+					}
+				} else {
+					// a witness that fails in a way the file does not list: report like any violation
+					p := writeReplay(prop, seed, 900000+l.Run, l.Case, v)
+					fmt.Printf("VIOLATION property=%s replay=%s\n", prop, p)
+					fmt.Fprintf(os.Stderr, "  witness %q: clause=%s signature=%s %s\n", l.Note, v.Clause, v.Sig, v.Detail)
+					exit = 1
+				}
+			}
+		}
+	}
+
+	// ---- lane A: seeded search
+	var mu sync.Mutex
+	agg := sim.NewStats()
+	fps := map[string]bool{}
+	nontrivial := map[string]bool{}
+	evaluations := 0
+	var samples []json.RawMessage
+	var founds []found
+	var wg sync.WaitGroup
+	per := (runs + workers - 1) / workers
+	crashed := []string{}
+	for wi := 0; wi < workers; wi++ {
+		wg.Add(1)
+		go func(wi int) {
+			defer wg.Done()
+			wtmp := filepath.Join(tmp, fmt.Sprintf("w%d", wi))
+			os.MkdirAll(wtmp, 0o755)
+			cmd := exec.Command(bi.Worker, "run", "--prop", prop, "--seed", fmt.Sprint(seed), "--tier", tier,
+				"--from", fmt.Sprint(wi), "--step", fmt.Sprint(workers), "--count", fmt.Sprint(per),
+				"--budget-ms", fmt.Sprint(budget*1000), "--tmp", wtmp)
+			cmd.Env = append(os.Environ(), workerEnv(wtmp, in.Flavor == "race")...)
+			var stderr bytes.Buffer
+			cmd.Stderr = &stderr
+			stdout, _ := cmd.StdoutPipe()
+			if err := cmd.Start(); err != nil {
+				mu.Lock()
+				crashed = append(crashed, fmt.Sprintf("worker %d: %v", wi, err))
+				mu.Unlock()
+				return
+			}
+			rd := bufio.NewReaderSize(stdout, 1<<20)
+			var begun int64 = -1
+			for {
+				ln, err := rd.ReadBytes('\n')
+				if len(ln) > 0 {
+					var l wline
+					if json.Unmarshal(ln, &l) == nil {
+						mu.Lock()
+						switch l.T {
+						case "begin":
+							begun = int64(l.Run)
+						case "run":
+							begun = -1
+							evaluations++
+							fps[l.FP] = true
+							if l.NT {
+								nontrivial[l.FP] = true
+							}
+							if len(l.Viol) > 0 {
+								for _, v := range l.Viol {
+									founds = append(founds, found{l.Run, l.Case, v})
+								}
+							} else if l.Case != nil && len(samples) < 3 {
+								samples = append(samples, l.Case)
+							}
+						case "stats":
+							agg.Add(l.Stats)
+						case "infra":
+							crashed = append(crashed, fmt.Sprintf("worker %d run %d: %s", wi, l.Run, l.Msg))
+						}
+						mu.Unlock()
+					}
+				}
+				if err != nil {
+					break
+				}
+			}
+			err := cmd.Wait()
+			if err != nil {
+				mu.Lock()
+				crashed = append(crashed, fmt.Sprintf("worker %d exited: %v (run in progress: %d)\n%s", wi, err, begun, tail(stderr.String(), 30)))
+				mu.Unlock()
+			}
+		}(wi)
+	}
+	wg.Wait()
+	if len(crashed) > 0 {
+		infra("worker trouble:\n%s", strings.Join(crashed, "\n"))
+	}
+
+	// ---- classify, minimise, replay
+	sort.Slice(founds, func(i, j int) bool { return founds[i].Run < founds[j].Run })
+	seenKey := map[string]bool{}
+	violations := 0
+	for _, f := range founds {
+		if seenKey[f.V.Key()] {
+			continue
+		}
+		seenKey[f.V.Key()] = true
+		if kf := matchKnown(findings, f.V); kf != nil {
+			if !knownPrinted[kf.ID] {
+				knownPrinted[kf.ID] = true
+				knownList = append(knownList, kf.ID)
+				fmt.Printf("KNOWN-FINDING: property=%s %s [%s]\n", prop, kf.What, kf.ID)
+			}
+			continue
+		}
+		violations++
+		if violations > 5 {
+			continue
+		}
+		p, ok := minimiseAndReplay(bi, in, prop, seed, f, tmp)
+		if !ok {
+			fmt.Fprintf(os.Stderr, "UNREPRODUCIBLE property=%s run=%d clause=%s signature=%s (%s) case=%s\n", prop, f.Run, f.V.Clause, f.V.Sig, f.V.Detail, p)
+			if exit == 0 {
+				exit = 2
+			}
+			continue
+		}
+		fmt.Printf("VIOLATION property=%s replay=%s\n", prop, p)
+		fmt.Fprintf(os.Stderr, "  run=%d clause=%s signature=%s %s\n", f.Run, f.V.Clause, f.V.Sig, f.V.Detail)
+		exit = 1
+	}
+
+	// ---- evidence
+	wall := time.Since(start).Seconds()
+	sort.Strings(knownList)
+	cov := map[string]any{
+		"evaluations":           evaluations,
+		"distinct_nontrivial":   len(nontrivial),
+		"distinct_fingerprints": len(fps),
+		"rule":                  in.Rule,
+		"samples":               samples,
+		"events_simulated_time": agg.Events,
+		"ops_by_kind":           agg.Ops,
+		"faults_fired":          agg.Faults,
+		"probes":                agg.Probes,
+		"runs_per_hour":         int(float64(evaluations) / wall * 3600),
+		"seeds_per_hour":        int(float64(evaluations) / wall * 3600),
+		"workers":               workers,
+		"flavor":                in.Flavor,
+		"map_seam":              bi.MapSeam,
+		"real_vs_stub":          in.RealVsStub,
+		"known_findings_printed": knownList,
+		"exhaustive":            false,
+		"tree":                  hashTree(),
+	}
+	if len(samples) == 0 {
+		cov["samples"] = []any{"(every explored case ended in a violation or known finding; see replays)"}
+	}
+	if bi.Note != "" {
+		cov["build_note"] = bi.Note
+	}
+	if v, ok := agg.Probes["evaluations"]; ok && v > 0 {
+		cov["runs"] = evaluations
+		cov["evaluations"] = v // property counts finer-grained evaluations (e.g. faulted saves)
+	}
+	ev := map[string]any{
+		"property_id": prop, "tier": tier, "seed": seed, "level": in.Level,
+		"coverage": cov, "assumptions": in.Assumptions, "wall_s": wall, "violations": violations,
+	}
+	eb, _ := json.MarshalIndent(ev, "", " ")
+	os.MkdirAll(filepath.Join(verifDir, "evidence"), 0o755)
+	if err := os.WriteFile(filepath.Join(verifDir, "evidence", prop+".json"), eb, 0o644); err != nil {
+		infra("evidence: %v", err)
+	}
+	fmt.Printf("check %s tier=%s seed=%d: %d runs, %d distinct non-trivial, %d violations, %d known findings, %.1fs\n",
+		prop, tier, seed, evaluations, len(nontrivial), violations, len(knownList), wall)
+	return exit
+}
+
+func tail(s string, n int) string {
+	ls := strings.Split(strings.TrimRight(s, "\n"), "\n")
+	if len(ls) > n {
+		ls = ls[len(ls)-n:]
+	}
+	return strings.Join(ls, "\n")
+}
+
+func writeReplay(prop string, seed, runIdx uint64, c json.RawMessage, v sim.Violation) string {
+	var m map[string]any
+	json.Unmarshal(c, &m)
+	if m == nil {
+		m = map[string]any{}
+	}
+	m["expect"] = v
+	b, _ := json.MarshalIndent(m, "", " ")
+	dir := filepath.Join(verifDir, "replays")
+	os.MkdirAll(dir, 0o755)
+	p := filepath.Join(dir, fmt.Sprintf("%s-%d-%d.json", prop, seed, runIdx))
+	os.WriteFile(p, b, 0o644)
+	return p
+}
+
+// minimiseAndReplay shrinks the failing case in a worker process, replays the
+// result in a fresh process and returns the replay file.
+func minimiseAndReplay(bi *buildInfo, in *info, prop string, seed uint64, f found, tmp string) (string, bool) {
+	orig := writeReplay(prop, seed, f.Run, f.Case, f.V)
+	small := orig + ".min"
+	env := append(os.Environ(), workerEnv(filepath.Join(tmp, "shrink"), in.Flavor == "race")...)
+	os.MkdirAll(filepath.Join(tmp, "shrink"), 0o755)
+	cmd := exec.Command(bi.Worker, "shrink", "--file", orig, "--out", small, "--tmp", filepath.Join(tmp, "shrink", "t"))
+	cmd.Env = env
+	done := make(chan error, 1)
+	go func() { _, err := cmd.CombinedOutput(); done <- err }()
+	select {
+	case err := <-done:
+		if err == nil {
+			if b, e := os.ReadFile(small); e == nil {
+				os.WriteFile(orig, b, 0o644)
+			}
+		}
+	case <-time.After(150 * time.Second):
+		cmd.Process.Kill()
+	}
+	os.Remove(small)
+	// replay in a fresh process: must fail the same way
+	for attempt := 0; attempt < 2; attempt++ {
+		rc := exec.Command(bi.Worker, "replay", "--file", orig, "--tmp", filepath.Join(tmp, "shrink", "r"))
+		rc.Env = env
+		err := rc.Run()
+		if ee, ok := err.(*exec.ExitError); ok && ee.ExitCode() == 1 {
+			return orig, true
+		}
+		// the minimised case does not replay: fall back to the unminimised one
+		if attempt == 0 {
+			writeReplay(prop, seed, f.Run, f.Case, f.V)
+		}
+	}
+	return orig, false
+}
+
+// ---- determinism self-test ----------------------------------------------------------
+
+func selftestDeterminism(args []string) int {
+	propsList := args
+	base := ensureWorker("instr")
+	if len(propsList) == 0 {
+		out, _ := exec.Command(base.Worker, "list").Output()
+		propsList = strings.Fields(string(out))
+	}
+	bad := 0
+	for _, p := range propsList {
+		in := getInfo(base.Worker, p)
+		bi := base
+		if in.Flavor == "race" {
+			bi = ensureWorker("race")
+		}
+		var ref string
+		for _, procs := range []string{"1", "4", "16"} {
+			for rep := 0; rep < 2; rep++ {
+				tmp := mkScratch("verif-det-")
+				cmd := exec.Command(bi.Worker, "fp", "--prop", p, "--seed", "7", "--count", "48", "--tmp", tmp)
+				cmd.Env = append(append(os.Environ(), workerEnv(tmp, in.Flavor == "race")...), "GOMAXPROCS="+procs)
+				out, err := cmd.Output()
+				os.RemoveAll(tmp)
+				if err != nil {
+					fmt.Printf("%s: worker failed: %v\n", p, err)
+					bad++
+					continue
+				}
+				if ref == "" {
+					ref = string(out)
+				} else if ref != string(out) {
+					fmt.Printf("%s: NONDETERMINISTIC at GOMAXPROCS=%s rep=%d\n", p, procs, rep)
+					a, b := strings.Split(ref, "\n"), strings.Split(string(out), "\n")
+					for i := range a {
+						if i < len(b) && a[i] != b[i] {
+							fmt.Printf("   %s\n   %s\n", a[i], b[i])
+							break
+						}
+					}
+					bad++
+				}
+			}
+		}
+		fmt.Printf("%s: 6 executions x 48 runs compared\n", p)
+	}
+	if bad > 0 {
+		return 2
+	}
+	fmt.Println("determinism self-test passed")
+	return 0
+}
+
+var _ = io.Discard
